@@ -101,6 +101,10 @@ def run(chk):
             % (len(two), len(conc.selected_scenarios()),
                "random schedules" if quick else "every transition covered"))
         vlib.run_scripts(chk, conc, c_exe, m_exe, scripts, conc.oracle)
+        # the clear callback re-entering the library (implementation only, judged by an independent oracle)
+        reent = conc.reent_scripts(rng, 6 if quick else 60)
+        chk.extra["reentrant_callback_scripts_on_the_implementation_only"] = len(reent)
+        vlib.run_impl_only(chk, conc, c_exe, reent, conc.reent_judge)
         if chk.mismatches and not chk.oracle_failures:
             directed_search(chk, c_exe)
         if not quick:
@@ -143,6 +147,14 @@ def replay(path):
     chk = vlib.Check("C06", "quick", 0)
     c_exe, m_exe = vlib.prepare_area(chk, conc, theorems=[])
     ops = r.get("ops") or r.get("detail", {}).get("minimised") or r.get("detail", {}).get("script")
+    if "cbreent" in ops:
+        # implementation-only script (the clear callback re-enters the library)
+        outs, _ = vlib.run_exe(c_exe, [ops], env=vlib.HARNESS_ENV)
+        for op, a in zip(ops, outs[0] + ["<missing>"] * len(ops)):
+            print("%-44s impl : %s" % (op, a))
+        w = conc.reent_judge("C06", ops, outs[0])
+        print("oracle:", w or "property holds on this input")
+        return 1 if w else 0
     c, m = vlib.run_pair(c_exe, m_exe, [ops], jobs=1)
     for op, a, b in zip(ops, c[0] + ["<missing>"] * len(ops), m[0] + ["<missing>"] * len(ops)):
         print("%-44s impl : %s\n%-44s model: %s" % (op, a, "", b))
